@@ -18,4 +18,6 @@ HARNESSES += [h for h in _load("C17").HARNESSES if h.name.startswith("cmd.SFC_SE
 HARNESSES += [h for h in _load("C14").HARNESSES if h.name.startswith("open_entry.")]
 # a write open with an unusable sample rate (0, negative) is refused, never a fault
 HARNESSES += [h for h in _load("C10").HARNESSES if h.name.startswith("open_sr.")]
+# Sound Designer II resource fork parser on arbitrary bytes
+HARNESSES += _load("C16").sd2_harnesses()
 META = {"assumptions": ["I_open"], "outside": ["failed sf_open leaves nothing behind: see C16"]}
